@@ -113,7 +113,7 @@ def spellings():
     # --- wire.Struct first argument / field names
     for k, first in enumerate(["new(T)", "&T{}", "ptrVar", "new(G[int])", "new(struct{ X int })", "(*T)(nil)", "new(*T)", "new(I)", "nil",
                                "0", '"str"', "T{}", "NewPT()", "new(PT)", "new(F)", "new([2]T)"]):
-        for j, fields in enumerate(['"*"', '"X"', "`X`", "fieldName", '"X" + ""', '"X", "Y"', '"*", "X"', "", '"Z"', '"x"']):
+        for j, fields in enumerate(['"*"', '"X"', "`X`", "fieldName", '"X" + ""', '"X", "Y"', '"*", "X"', "", '"Z"', '"x"', "`*`", '"\\x2a"', '("*")']):
             if k > 2 and j > 1:
                 continue
             args = first + (", " + fields if fields else "")
@@ -203,6 +203,10 @@ def spellings():
     # functions of packages outside the user's module as items: a bad signature is reported where the function is declared
     for k, e in enumerate(["os.Exit", "errors.Is", "os.Getenv", "errors.New", "io.ReadAll"]):
         add("foreignfunc/%d" % k, inj("Init", "string", "wire.Build(NewStr, %s)" % e))
+    # struct types of packages outside the user's module with several fields of one type (D39)
+    for k, item in enumerate(['wire.Struct(new(os.LinkError), "*")', 'wire.Struct(new(os.LinkError), "Op", "Old")', "os.LinkError{}",
+                              'wire.Struct(new(os.LinkError), "Op", "Err")']):
+        add("foreigndup/%d" % k, inj("Init", "os.LinkError", "wire.Build(NewStr, %s)" % item))
     add("sets/multi", "func twoSets() (wire.ProviderSet, wire.ProviderSet) { return wire.NewSet(), wire.NewSet() }\n\n"
                       "var A, B = twoSets()\n\n" + inj("Init", "int", "wire.Build(NewInt)"))
     add("sets/multi-used", "func twoSets() (wire.ProviderSet, wire.ProviderSet) { return wire.NewSet(NewInt), wire.NewSet() }\n\n"
